@@ -210,7 +210,7 @@ def run_check(prop, args, seed, t_start):
         try:
             with mp.Pool(min(16, len(todo))) as pool:
                 results = pool.map(verify_worker, [(c.name, tier, scratch) for c in todo], chunksize=1)
-            budgets = (10000, 20000, False) if tier == 'quick' else (60000, 60000, True)
+            budgets = (25000, 30000, False) if tier == "quick" else (90000, 90000, True)
             jobs = []
             for r in results:
                 for d in r['obligations']:
